@@ -1,7 +1,7 @@
 (* C14 - Movement and mart lists are expanded, ordered and terminated exactly once. *)
 From Coq Require Import List String ZArith NArith.
 Open Scope string_scope.
-From Pory Require Import Lexer Ast Parser Emitter Props1.
+From Pory Require Import Lexer Ast Parser Emitter Props1 C14Proofs TopProps.
 Import ListNotations.
 
 Theorem steps_out_spec : forall steps,
@@ -22,3 +22,28 @@ Print Assumptions emit_steps_lines.
 Theorem repeat_tok_spec : forall n tk, repeat_tok n tk = repeat tk n.
 Proof. exact Props1.repeat_tok_spec. Qed.
 Print Assumptions repeat_tok_spec.
+
+(* 'step * N': accepted exactly for 1 <= N <= 9999 (N read as by strconv.ParseInt(.,0,64)) and expanded in place *)
+Theorem multiplier_accepted :
+  forall switches env_errors f c multi ts acc n,
+    at_multiplier c ts -> go_parse_int (tlit (cur (adv (adv ts)))) = Some n -> (1 <= n <= 9999)%Z ->
+    list_value switches env_errors (S f) (LMov c) multi ts acc =
+      (if multi then list_value switches env_errors f (LMov c) multi (adv (adv (adv ts))) (acc ++ repeat (cur ts) (Z.to_nat n))
+       else Parser.Ok (acc ++ repeat (cur ts) (Z.to_nat n), adv (adv (adv ts)))).
+Proof. exact C14Proofs.multiplier_accepted. Qed.
+Print Assumptions multiplier_accepted.
+
+Theorem multiplier_rejected :
+  forall switches env_errors f c multi ts acc,
+    at_multiplier c ts ->
+    (match go_parse_int (tlit (cur (adv (adv ts)))) with Some n => (n <= 0 \/ 9999 < n)%Z | None => True end) ->
+    exists e, list_value switches env_errors (S f) (LMov c) multi ts acc = Err e /\ els e = tline (cur (adv (adv ts))).
+Proof. exact C14Proofs.multiplier_rejected. Qed.
+Print Assumptions multiplier_rejected.
+
+(* a mart block: .align 2, the label, the items, one ITEM_NONE *)
+Theorem mart_shape : forall name glob tk items itoks,
+  emit_mart None name glob tk items itoks =
+    ILine (tab ++ t ".align 2") :: ILabel name glob :: emit_items None items itoks ++ [ILine (tab ++ t ".2byte ITEM_NONE")].
+Proof. exact TopProps.emit_mart_shape. Qed.
+Print Assumptions mart_shape.
